@@ -13,7 +13,7 @@ from harness.pool import Pool
 
 CFG = "INIT Init\nNEXT Next\nCHECK_DEADLOCK FALSE\nINVARIANT ReadBack\nINVARIANT MalformedRejected\nINVARIANT SameEffect\n"
 DELTAS = [-0x200, -1, 0, 1, 0x200, 0x8000]
-PLACEMENTS = ["first", "between", "block", "after"]
+PLACEMENTS = ["first", "between", "block", "after", "reloc_rom", "reloc_ram", "macro"]
 
 
 def kind(recs) -> str:
@@ -48,7 +48,7 @@ def run(ctx) -> None:
     for v in vecs:
         combos = [(d, p) for d in DELTAS for p in PLACEMENTS]
         if ctx.quick:
-            combos = rnd.sample(combos, 6)
+            combos = rnd.sample(combos, 8)
         for d, p in combos:
             if min(rc["off"] for rc in v["recs"]) + d < 0:
                 continue   # negative target offsets are not part of the statement
